@@ -21,6 +21,10 @@ def stepF (_ : Unit) (w : List String) : Option (Unit × String × List String) 
   | ["prog", cd, _] =>
     let r := if expectProbes then "probes=- goroutines=0" else "probes=model-disagrees goroutines=0"
     some ((), r, (if cd == "5000" then ["long_cooldown"] else []) ++ ["shutdown_order"])
+  | ["closewait", _] =>
+    -- Buffer.Close returns only when no consumer is registered any more (BB.Props.C12: the close path leaves its wait only
+    -- with `consumers = 0`), whatever is broadcast meanwhile; inspection calls never hang
+    some ((), "probes=- goroutines=0", ["close_waits_for_every_consumer"])
   | _ => none
 
 def fam : Fam := { init := (), step := stepF }
